@@ -100,8 +100,12 @@ def generate(tp: Tape, tier: str):
                     if e[0] == "s" and e[3] not in (None, 1):
                         e[3] = None
                 st["p"]["idx"] = [e if e[0] != "a" else ["s", None, None, None] for e in st["p"]["idx"]]
-        if any(st["op"] == "argred" for st in prog["steps"]):
-            prog = G.remove_steps(prog, []) or prog
+        # roll (known finding mem-roll-unaligned-concat) is only kept in the raw fraction
+        drop = [i for i, st in enumerate(prog["steps"]) if st["op"] == "roll"]
+        if drop:
+            p2 = G.remove_steps(prog, drop)
+            if p2 is not None:
+                prog = p2
         if not G.valid_program(prog):
             raw = True
             prog = original
@@ -112,7 +116,7 @@ def generate(tp: Tape, tier: str):
             shp = sh.values[st["args"][0]].shape
             st["p"]["chunks"] = [max(1, -(-s // tp.choice([1, 1, 2, 3]))) for s in shp]
             st["p"].pop("min_mem", None)
-    avoid_fused_argred = (not raw) and any(st["op"] in ("argred", "roll") for st in prog["steps"])
+    avoid_fused_argred = (not raw) and any(st["op"] in ("argred",) for st in prog["steps"])
     case = dict(kind="prog", prog=prog, profile="memory", raw=raw,
                 exec=dict(kind=tp.choice(["single", "threads", "processes"]), max_workers=2),
                 sim=dict(mode="atomic", dur="zero"),
